@@ -193,6 +193,8 @@ class Executor:
         self.divmods: dict = {}
         self.hint_ids: set = set()
         self._keep: list = []
+        self.partial_loops: list = []
+        self._binders: list = []
         self._number_loops(fn_node)
 
     def _number_loops(self, node):
@@ -317,6 +319,11 @@ class Executor:
     def divmod_(self, a, b, st, what, spec=False):
         if not spec:
             self.vc(st, "safety", f"safety.div#{what}", b != 0, "divisor != 0")
+        if self._binders and (_mentions(a, self._binders) or _mentions(b, self._binders)):
+            # under a binder the quotient is a function of the bound variable: use SMT div/mod directly
+            # (Python floor semantics: for b > 0 they coincide with SMT-LIB div/mod; for b < 0 negate both operands)
+            q = z3.If(b > 0, a / b, (-a) / (-b))
+            return q, a - b * q
         key = (z3.simplify(a).sexpr(), z3.simplify(b).sexpr())      # t-1-s and t-(s+1) are the same dividend (text keys: AST ids are recycled once a term is freed)
         if key in self.divmods:          # one quotient/remainder pair per (dividend, divisor) term: n % s and n // s share it
             q, r, fact = self.divmods[key]
@@ -655,7 +662,11 @@ class Executor:
             sub = st.clone()
             sub.env[a[0].id] = IntV(j)
             lo, hi = self.as_int(self.ev(a[1], sub, True)), self.as_int(self.ev(a[2], sub, True))
-            body = self.truth(self.ev(a[3], sub, True), sub)
+            self._binders.append(j)
+            try:
+                body = self.truth(self.ev(a[3], sub, True), sub)
+            finally:
+                self._binders.pop()
             if name == "forall":
                 return BoolV(z3.ForAll([j], z3.Implies(z3.And(lo <= j, j < hi), body)))
             return BoolV(z3.Exists([j], z3.And(lo <= j, j < hi, body)))
@@ -664,7 +675,11 @@ class Executor:
             sub = st.clone()
             sub.env[a[0].id] = IntV(j)
             lo, hi = self.as_int(self.ev(a[1], st, True)), self.as_int(self.ev(a[2], st, True))
-            body = self.as_int(self.ev(a[3], sub, True))
+            self._binders.append(j)
+            try:
+                body = self.as_int(self.ev(a[3], sub, True))
+            finally:
+                self._binders.pop()
             T = z3.Lambda([j], body)
             lo_s = z3.simplify(lo)
             if z3.is_int_value(lo_s) and lo_s.as_long() == 0:
@@ -1040,6 +1055,9 @@ class Executor:
             dec0 = self.as_int(self.ev(_parse(spec["decreases"]), b, True))
         elif auto_dec is not None:
             dec0 = auto_dec(b)
+        elif spec.get("partial"):
+            dec0 = None          # partial correctness only: recorded as an unchecked assumption by the driver
+            self.partial_loops.append(k)
         else:
             raise OutOfSubset(f"while loop {k} needs a decreases clause")
         snap = TupleV([])
@@ -1062,11 +1080,12 @@ class Executor:
                 self.check_invs(sx, spec, k, "preserve")
                 if auto_inv is not None:
                     self.vc(sx, "inv.preserve", f"loop{k}.inv.preserve#auto", auto_inv(sx), "0 <= index <= count")
-                if spec.get("decreases"):
-                    dec1 = self.as_int(self.ev(_parse(spec["decreases"]), sx, True))
-                else:
-                    dec1 = auto_dec(sx)
-                self.vc(sx, "decreases", f"loop{k}.decreases", z3.And(dec0 >= 0, dec1 < dec0), spec.get("decreases", "count - index"))
+                if dec0 is not None:
+                    if spec.get("decreases"):
+                        dec1 = self.as_int(self.ev(_parse(spec["decreases"]), sx, True))
+                    else:
+                        dec1 = auto_dec(sx)
+                    self.vc(sx, "decreases", f"loop{k}.decreases", z3.And(dec0 >= 0, dec1 < dec0), spec.get("decreases", "count - index"))
             elif sig == "break":
                 results.append((sx, "fall", None))
             else:
@@ -1155,6 +1174,24 @@ class Executor:
                 else:
                     self.vc(sx, "raises", f"raises.{val}", z3.BoolVal(False), f"undeclared raise {val} must be unreachable")
         return self.vcs
+
+
+def _mentions(expr, consts):
+    ids = {c.get_id() for c in consts}
+    seen = set()
+    stack = [expr]
+    while stack:
+        e = stack.pop()
+        if e.get_id() in seen:
+            continue
+        seen.add(e.get_id())
+        if e.get_id() in ids:
+            return True
+        if z3.is_app(e):
+            stack.extend(e.children())
+        elif z3.is_quantifier(e):
+            stack.append(e.body())
+    return False
 
 
 def _split_top(s):
@@ -1324,7 +1361,8 @@ def verify(contract: dict, all_contracts: dict | None = None, ms: int = 10_000, 
             verdict = "undecided" if verdict == "proved" else "proved"
             m = None
         vc.status, vc.secs, vc.backend, vc.model = verdict, dt, be, m
-    return dict(vcs=vcs, dropped=sorted(ex.dropped), error=None, sha=sha, file=file, secs=time.time() - t0, executor=ex)
+    return dict(vcs=vcs, dropped=sorted(ex.dropped), error=None, sha=sha, file=file, secs=time.time() - t0, executor=ex,
+                partial_loops=list(ex.partial_loops))
 
 
 def verify_plain(arg):
@@ -1332,6 +1370,6 @@ def verify_plain(arg):
     name, ms = arg
     from contracts.wpc import W
     r = verify(W[name], W, ms)
-    return dict(name=name, error=r["error"], dropped=r["dropped"], sha=r.get("sha"), file=r.get("file"), secs=r.get("secs"),
+    return dict(name=name, error=r["error"], dropped=r["dropped"], sha=r.get("sha"), file=r.get("file"), secs=r.get("secs"), partial_loops=r.get("partial_loops", []),
                 vcs=[dict(oid=v.oid, kind=v.kind, status=v.status, secs=v.secs, backend=v.backend, note=v.note, path=v.path,
                           model=str(v.model)[:2000] if v.model is not None else None) for v in r["vcs"]])
